@@ -178,4 +178,13 @@ CHECKS = {
         "note": "Order dependence is only judged for polygons of area > 1e-6 (the library's own intersection tolerance); KF-C15-coincident-face-order matched by exact state.",
         "technique": "bounded-exhaustive enumeration of tetrahedron-pair and body-pair placements on the real code vs independent barycentric/plane/convexity checks",
     },
+    "C16": {
+        "text": ("36 factory body pairs x 4 contact placements x rotations of body 1 and of body 2 (general, not just identity): for each scene "
+                 "the transition relations f12 = -f21, swap of the bodies swaps the wrenches, 5 common rigid motions rotate the forces, repeated "
+                 "call on the re-expressed bodies, 6 interleaved call histories (length <= 3) with a third body, and the tree broad phase "
+                 "(use_aabb_trees=True) = brute-force pair set, each within 5% of |f| with unchanged intersection flag."),
+        "design_ref": "DESIGN.md 5 C16",
+        "note": "Sphere bodies (make_sphere takes a centre only, so the mesh does not rotate with the scene) are compared under translations only. Flag flips of zero-area grazing contacts are ignored.",
+        "technique": "bounded-exhaustive enumeration of body-pair scenes x transition relations and call histories on the real contact_forces",
+    },
 }
